@@ -863,6 +863,14 @@ func (env *Env) call(e *Expr) *Val {
 		return scalar(App("mkSeq", SUnint("StrSeq"), arr, v.Len), nil)
 	case "bufAt":
 		v := env.eval(e.Args[0])
+		if v.K == VAddr {
+			// a buffer embedded in another struct (an interior pointer): its opaque value lives in that field
+			lv := env.ex.load(env.cur, v.A)
+			return scalar(App("bufBytes", SStr, lv.T), types.Typ[types.String])
+		}
+		if v.K == VScalar && v.T.Sort == SOpq {
+			return scalar(App("bufBytes", SStr, v.T), types.Typ[types.String]) // already the buffer's opaque value
+		}
 		arr := env.cur.get("F|bytes.Buffer|", SArr(SRef, SOpq))
 		return scalar(App("bufBytes", SStr, Select(arr, recast(v.T, SRef))), types.Typ[types.String])
 	case "ref":
